@@ -291,9 +291,19 @@ def _instances():
                                                                   Instruction("LOAD_DEREF", Freevar("f\ud800")), Instruction("LOAD_CONST", Constant(("\ud800", b"\xff")))),),
                                                         filename="file\ud800.py", first_line_number=1, name="nm\ud800", stacksize=1, freevars=("f\ud800",),
                                                         type=Function(Args(("p\ud800",), ("a\ud800",), "r\ud800", ("k\ud800",), "kw\ud800"), "doc \ud800 string")),
+        "CodeData(nested, lone surrogate in the nested file name)": CodeData(blocks=((Instruction("LOAD_CONST", Constant(CodeData(blocks=(body,), filename="caf\udce9.py", first_line_number=1, name="in\udcffner", stacksize=1))),),),
+                                     filename="caf\udce9.py", first_line_number=1, name="outer", stacksize=1),
         "CodeData(nested)": CodeData(blocks=((Instruction("LOAD_CONST", Constant(CodeData(blocks=(body,), filename="f.py", first_line_number=1, name="inner", stacksize=1))),),),
                                      filename="f.py", first_line_number=1, name="outer", stacksize=1),
     }
+
+
+def _reversed_members(j):
+    if isinstance(j, dict):
+        return {k: _reversed_members(j[k]) for k in reversed(list(j))}
+    if isinstance(j, list):
+        return [_reversed_members(v) for v in j]
+    return j
 
 
 def _deep_immutable(x):
@@ -343,6 +353,15 @@ def h_positions(ctx, cfg):
         else:
             back = None
         ctx.prove("roundtrip[%s]" % name, z3.BoolVal(back == v and type(back) is type(v) and (repr(back) == repr(v) or "frozenset" in repr(v))), detail="%r -> %r" % (v, back))
+        if ok and isinstance(v, (CodeData, Instruction, Jump, Name, Varname, Cellvar, Freevar, NoArg, Constant)):
+            # JSON objects are unordered: the same document with its members sorted, and reversed, loads to the same value
+            dec = J.code_data_from_json if isinstance(v, CodeData) else J.instruction_from_json if isinstance(v, Instruction) else J.arg_from_json
+            for how, text in (("sorted", json.dumps(j, sort_keys=True)), ("reversed", json.dumps(_reversed_members(j)))):
+                try:
+                    again, det = dec(json.loads(text)), None
+                except Exception as e:
+                    again, det = None, "%s: %s" % (type(e).__name__, e)
+                ctx.prove("member_order_is_irrelevant[%s,%s]" % (name, how), z3.BoolVal(again == v), detail=det or repr(again)[:200])
         if ok:
             again = J.value_to_json(back)
             ctx.prove("reserializes_to_the_identical_document[%s]" % name, z3.BoolVal(json.dumps(again, sort_keys=True) == json.dumps(doc, sort_keys=True) or "frozenset" in s))
